@@ -236,7 +236,9 @@ func keys(m interface{}) []string {
 }
 
 // one cluster edit, with the event handler the informer would call (unless the event is lost)
-func (d *driver) edit(lost bool) {
+// lost: the process is down. lostPod: it is up but this pod event is not handled before the next action (the pod and the
+// policy informers deliver independently; policy events of one informer are always handled in order).
+func (d *driver) edit(lost, lostPod bool) {
 	c := &d.c
 	handled := !lost
 	switch k := d.rng.Intn(10); {
@@ -275,6 +277,7 @@ func (d *driver) edit(lost bool) {
 			d.emit(M{"ev": "UpdatePolicy", "obj": p.Name + "_" + p.Ns, "handled": handled})
 		}
 	case k < 9: // pod add / update / delete
+		handled = handled && !lostPod
 		i := d.rng.Intn(len(podNames))
 		var cur *env.PodA
 		for _, key := range keys(c.Pods) {
@@ -356,7 +359,7 @@ func (d *driver) runTrace(id, length int) {
 	for i := 0; i < length; i++ {
 		switch r := d.rng.Intn(20); {
 		case r < 11:
-			d.edit(down || d.rng.Intn(8) == 0)
+			d.edit(down, d.rng.Intn(6) == 0)
 		case r < 13 && !down:
 			down = true
 			d.emit(M{"ev": "Down"})
